@@ -84,6 +84,18 @@ def _run_vh_chunk(args):
             raise ToolError(f"vh {cmd} chunk {jobs_path} exceeded {timeout}s")
         if p.returncode == 0:
             return restarts
+        if p.returncode == 4:
+            # worker threads of the last job were still alive: continue in a fresh process
+            last = None
+            with open(res_path) as f:
+                for line in f:
+                    if line.strip():
+                        last = json.loads(line)
+            skip = int(last["index"]) + 1
+            restarts += 1
+            if skip >= njobs:
+                return restarts
+            continue
         if p.returncode == 3:
             # a job hung: its result line says which; continue after it
             last = None
